@@ -253,3 +253,39 @@ Lemma table_as_documented :
   map (fun kv => (fst kv, fst (fst (fst (fst (snd kv)))))) x_common_table
   = map (fun kv => (s2r (fst kv), map s2r (snd kv))) documented_common.
 Proof. vm_compute. reflexivity. Qed.
+
+(* ---------- totality: the settings front end ends in a record or a diagnostic, never a panic ---------- *)
+Lemma parse_common_no_panic tbl c cmd rest s : parse_common tbl c cmd rest <> Panic s.
+Proof.
+  unfold parse_common. destruct cmd; [discriminate|].
+  destruct (lookup_key tbl (n :: cmd)) as [[[[[fs parser] fsetting] guard] enumcheck]|]; [|discriminate].
+  destruct (negb _); [discriminate|]. destruct (parser =? 0).
+  - unfold parse_bool. destruct (fields rest) as [|f [|? ?]]; cbn [bind]; try discriminate.
+    + destruct (enumcheck && _); discriminate.
+    + destruct (rstr_eqb f YES); cbn [bind]; [destruct (enumcheck && _); discriminate|].
+      destruct (rstr_eqb f NO); cbn [bind]; [destruct (enumcheck && _); discriminate|discriminate].
+  - unfold parse_string. destruct (fields rest) as [|f [|? ?]]; cbn [bind]; try discriminate.
+    destruct (enumcheck && _); discriminate.
+Qed.
+
+Lemma converter_line_no_panic c line s : converter_line c line <> Panic s.
+Proof.
+  unfold converter_line. destruct (command line) as [cmd rest].
+  destruct (is cmd "extend" && _); [discriminate|]. destruct (in_keys x_converter_keys cmd); [discriminate|].
+  pose proof (parse_common_no_panic x_common_table c cmd rest s) as H.
+  destruct (parse_common x_common_table c cmd rest) as [[c1 b]| |]; cbn [bind]; congruence.
+Qed.
+
+Lemma fold_no_panic {A B} (f : A -> B -> res A) : (forall a b s, f a b <> Panic s) ->
+  forall l a s, fold_res f l a <> Panic s.
+Proof.
+  intros H l. induction l as [|b l IH]; intros a s; cbn; [discriminate|].
+  pose proof (H a b s). destruct (f a b); cbn [bind]; [apply IH|discriminate|congruence].
+Qed.
+
+Theorem converter_settings_total global conv s : converter_smap global conv <> Panic s.
+Proof.
+  unfold converter_smap. pose proof (fold_no_panic converter_line converter_line_no_panic global default_smap s) as H1.
+  destruct (fold_res converter_line global default_smap) as [c1| |]; cbn [bind]; [|discriminate|congruence].
+  apply fold_no_panic. exact converter_line_no_panic.
+Qed.
